@@ -81,6 +81,7 @@ def numlen(eng, v):
         t = f(v)
         eng.add_axiom(z3.And(z3.UGE(t, 1), z3.ULE(t, 9)))
         return eng._rec(t, hi=9)
+    eng.ranges["numlen"] = (1, 9)
     f = z3.Function("numlen", z3.IntSort(), z3.IntSort())
     t = f(v)
     eng.add_axiom(z3.And(t >= 1, t <= 9))
